@@ -17,7 +17,10 @@
 (*  Deliver  {dir, off, len, eq}       the bridge wrote len bytes to the receiving end of dir;    *)
 (*                                     off = the receiver's count so far, eq = they equal the     *)
 (*                                     sender's stream at [off, off+len)                          *)
-(*  Env      {a, clean, k}             arm | glitch | stall | unstall | routefail | replace |      *)
+(*  Env      {a, clean, k}             arm | glitch | stall | unstall | routefail | statstall |    *)
+(*                                     statresume (the statistics backend stops answering /       *)
+(*                                     answers again) | hold (the tunnel outlives the heartbeat   *)
+(*                                     timeout) | replace |                                       *)
 (*                                     closeold (script bookkeeping; stall = the end stops        *)
 (*                                     draining, routefail = the routing store fails deletes);    *)
 (*                                     replace carries clean (see TrEnv); glitch carries k: t0 =  *)
@@ -33,7 +36,9 @@
 (*  Forgot   {n}                       tunnels left in the server's map 5 s after that instant    *)
 (*  Counters {sent, recv}              Bridge.GetBytesSent/Received (recorded, not judged)        *)
 (*  Crash    {fn}                      the (child) server process died of a Go panic whose topmost *)
-(*                                     frame is the tunnox-core function fn                       *)
+(*                                     frame is the tunnox-core function fn; fn = typed-nil-conn: *)
+(*                                     the server called a method on a nil connection it had      *)
+(*                                     wrapped in an interface (a nil dereference in production)  *)
 (*                                                                                              *)
 (* "Closed early" is read from the trace: the completeness clause is demanded                    *)
 (*   (a) at every Drain that happens while no end has closed or failed, and                      *)
@@ -81,8 +86,11 @@ TrSend == /\ Is("Send") /\ l' = l + 1
           /\ tail' = (tail /\ Ev.e = ender)
           /\ UNCHANGED <<viol, cfg, delivered, attached, ended, ender, stale, void, fault>>
 
+\* k (optional): pkt = through the packet path (Handshake, TunnelOpen), xnode = from another node through
+\* the cross-node listener; absent = SetTargetConnection called directly
 TrAttach == /\ Is("Attach") /\ l' = l + 1 /\ attached' = TRUE
-            /\ UNCHANGED <<viol, cfg, sent, delivered, ended, ender, tail, stale, void, fault>>
+            /\ fault' = (IF Has("k") THEN Also("attach=" \o Ev.k) ELSE fault)
+            /\ UNCHANGED <<viol, cfg, sent, delivered, ended, ender, tail, stale, void>>
 
 TrDeliver ==
   /\ Is("Deliver") /\ l' = l + 1
@@ -106,7 +114,9 @@ TrEnv == /\ Is("Env") /\ l' = l + 1
          /\ fault' = (IF Ev.a = "glitch" THEN Also(IF Ev.k = "tn" THEN "read=data+timeout" ELSE "read=timeout")
                       ELSE IF Ev.a = "arm" THEN Also("write=short")
                       ELSE IF Ev.a = "stall" THEN Also("write=stalled")
-                      ELSE IF Ev.a = "routefail" THEN Also("route=delete-fails") ELSE fault)
+                      ELSE IF Ev.a = "routefail" THEN Also("route=delete-fails")
+                      ELSE IF Ev.a = "statstall" THEN Also("stats=stalled")
+                      ELSE IF Ev.a = "hold" THEN Also("held>heartbeat") ELSE fault)
          /\ UNCHANGED <<viol, cfg, sent, delivered, attached, ended, ender>>
 
 TrCloseEnd ==
@@ -148,7 +158,7 @@ TrForgot ==
 \* the server process died with a panic in tunnox-core code while running this tunnel: every tunnel of
 \* the server is cut and nothing is "forgotten" in an orderly way
 TrCrash == /\ Is("Crash") /\ l' = l + 1
-           /\ Add("Crash", "panic:" \o Ev.fn)
+           /\ Add("Crash", IF Ev.fn = "typed-nil-conn" THEN Ev.fn ELSE "panic:" \o Ev.fn)
            /\ UNCHANGED <<cfg, sent, delivered, attached, ended, ender, tail, stale, void, fault>>
 
 TrCounters == /\ Is("Counters") /\ l' = l + 1
